@@ -1,143 +1,8 @@
 ----------------------------- MODULE BarState -----------------------------
-(***************************************************************************)
-(* The sequential rules of one bar: counters, completion trigger, abort,   *)
-(* refill, and what the getters return (properties C09 and C11, the        *)
-(* sequential side of C10 and the counter clauses of C19).  One action per *)
-(* public mutator; the bodies follow the documented rules (bar.go).        *)
-(*                                                                         *)
-(* phase "live"  : no terminal event yet; every call is applied.           *)
-(* phase "term"  : a terminal event has cancelled the bar; its goroutine   *)
-(*                 has not noticed yet, so a call is applied or dropped.   *)
-(* phase "exited": the goroutine has published its state; calls do nothing *)
-(*                 and getters return the final values.                    *)
-(* (In a refreshing container the cancellation comes later, from the       *)
-(* container; the rules are the same, the window is longer.)               *)
-(***************************************************************************)
-EXTENDS Integers, TLC, Json, Sequences
+(* The rules are in BarRules.tla; this module adds what TLC needs to print   *)
+(* the complete labelled transition relation for the replay on a real bar.  *)
+EXTENDS BarRules, TLC, Json, Sequences
 
-CONSTANTS Totals,     \* initial totals
-          Args,       \* integer arguments of the calls
-          Fixed       \* TRUE: completed() requires ~aborted (the repaired rule)
-
-VARIABLES total, current, refill, trig, aborted, rm, phase, last
-vars  == <<total, current, refill, trig, aborted, rm, phase, last>>
-view  == <<total, current, refill, trig, aborted, rm, phase>>
-
-Completed == trig /\ current = total /\ (Fixed => ~aborted)
-Aborted   == aborted
-Current   == current
-
-Init == /\ total \in Totals /\ current = 0 /\ refill = 0
-        /\ trig = (total > 0) /\ aborted = FALSE /\ rm = FALSE /\ phase = "live"
-        /\ last = [op |-> "new", a |-> total, f |-> FALSE, applied |-> TRUE]
-
-(* the clamp-and-trigger block shared by every increment / set path *)
-Settle(c, t, tr) == IF tr /\ c >= t THEN [cur |-> t, fire |-> TRUE] ELSE [cur |-> c, fire |-> FALSE]
-
-Fire(ph) == IF ph = "live" THEN "term" ELSE ph
-
-Applies == phase = "live" \/ phase = "term"
-
-Incr(n) ==
-  /\ Applies
-  /\ LET s == Settle(current + n, total, trig) IN
-       /\ current' = s.cur
-       /\ phase' = IF s.fire THEN Fire(phase) ELSE phase
-  /\ UNCHANGED <<total, refill, trig, aborted, rm>>
-
-SetCurrent(v) ==
-  /\ Applies
-  /\ IF v < 0 THEN UNCHANGED <<current, phase>>
-     ELSE LET s == Settle(v, total, trig) IN
-            /\ current' = s.cur
-            /\ phase' = IF s.fire THEN Fire(phase) ELSE phase
-  /\ UNCHANGED <<total, refill, trig, aborted, rm>>
-
-SetTotal(t, complete) ==
-  /\ Applies
-  /\ IF trig THEN UNCHANGED <<total, current, trig, phase>>
-     ELSE LET nt == IF t < 0 THEN current ELSE t IN
-            /\ total' = nt
-            /\ IF complete THEN /\ current' = nt /\ trig' = TRUE /\ phase' = Fire(phase)
-                           ELSE UNCHANGED <<current, trig, phase>>
-  /\ UNCHANGED <<refill, aborted, rm>>
-
-EnableTrigger ==
-  /\ Applies
-  /\ IF trig THEN UNCHANGED <<current, trig, phase>>
-     ELSE IF current >= total THEN /\ current' = total /\ trig' = TRUE /\ phase' = Fire(phase)
-     ELSE /\ trig' = TRUE /\ UNCHANGED <<current, phase>>
-  /\ UNCHANGED <<total, refill, aborted, rm>>
-
-SetRefill(a) ==
-  /\ Applies
-  /\ refill' = IF a < current THEN a ELSE current
-  /\ UNCHANGED <<total, current, trig, aborted, rm, phase>>
-
-Abort(drop) ==
-  /\ Applies
-  /\ IF aborted \/ Completed THEN UNCHANGED <<aborted, rm, trig, phase>>
-     ELSE /\ aborted' = TRUE /\ rm' = drop /\ trig' = TRUE /\ phase' = Fire(phase)
-  /\ UNCHANGED <<total, current, refill>>
-
-(* the goroutine notices the cancellation and publishes its state *)
-Exit ==
-  /\ phase = "term"
-  /\ phase' = "exited"
-  /\ aborted' = ~Completed
-  /\ UNCHANGED <<total, current, refill, trig, rm>>
-
-(* the container itself is cancelled (Shutdown / context): a live bar ends aborted *)
-Cancel ==
-  /\ phase = "live"
-  /\ phase' = "term"
-  /\ UNCHANGED <<total, current, refill, trig, aborted, rm>>
-
-(* a call that arrives after the cancellation may be dropped *)
-Dropped == phase \in {"term", "exited"} /\ UNCHANGED view
-
-Call(op, a, f, act) ==
-  \/ act /\ last' = [op |-> op, a |-> a, f |-> f, applied |-> TRUE]
-  \/ Dropped /\ last' = [op |-> op, a |-> a, f |-> f, applied |-> FALSE]
-
-Next ==
-  \/ \E n \in Args : Call("incr", n, FALSE, Incr(n))
-  \/ \E v \in Args : Call("setcur", v, FALSE, SetCurrent(v))
-  \/ \E t \in Args, c \in BOOLEAN : Call("settotal", t, c, SetTotal(t, c))
-  \/ Call("trigger", 0, FALSE, EnableTrigger)
-  \/ \E a \in Args : Call("refill", a, FALSE, SetRefill(a))
-  \/ \E d \in BOOLEAN : Call("abort", 0, d, Abort(d))
-  \/ Exit /\ last' = [op |-> "exit", a |-> 0, f |-> FALSE, applied |-> TRUE]
-  \/ Cancel /\ last' = [op |-> "cancel", a |-> 0, f |-> FALSE, applied |-> TRUE]
-
-Spec == Init /\ [][Next]_vars
-
----------------------------------------------------------------------------
-(* C11 *)
-Exclusive == ~(Completed /\ Aborted)
-ExactlyOneAtExit == phase = "exited" => (Completed # Aborted)
-
-(* a step that does not move the counter backwards *)
-NonDecreasing == current' >= current \/ last'.op \notin {"setcur", "incr", "trigger", "settotal"}
-CompletedStable == [][(Completed /\ NonDecreasing) => Completed']_vars
-AbortedStable   == [][Aborted => (Aborted' /\ ~Completed')]_vars
-
-(* C09 *)
-Capped        == trig /\ total >= 0 /\ phase # "live" /\ Completed => current = total
-NeverOverTotal == (trig /\ last.op \in {"incr", "setcur"} /\ last.applied) => current <= total
-RefillCapped  == (last.op = "refill" /\ last.applied) => refill <= current
-NoCompletionWithoutTrigger ==
-  [][(~trig /\ last'.op \in {"incr", "setcur", "refill"}) => (~Completed' /\ phase' = phase)]_vars
-AbortNoEffectOnCompleted ==
-  [][(Completed /\ last'.op = "abort") => (Completed' /\ ~Aborted')]_vars
-(* adopting the counter as the total (SetTotal with a negative total) never changes the counter, and a positive increment
-   never lowers it (on a bar that has not been aborted and whose counter is not above its total): under these calls alone,
-   from a bar of total 0, Current() is monotone (the stress driver checks exactly this) *)
-AdoptKeepsCounter ==
-  [][~aborted => /\ ((last'.op = "settotal" /\ last'.a < 0) => current' = current)
-                 /\ ((last'.op = "incr" /\ last'.a > 0 /\ (~trig \/ current <= total)) => current' >= current)]_vars
-SetTotalIgnoredWhenTriggered ==
-  [][(trig /\ last'.op = "settotal") => total' = total]_vars
 
 (* every explored transition, for the replay against the real Bar *)
 Proj == [total |-> total, current |-> current, refill |-> refill, trig |-> trig, aborted |-> aborted, rm |-> rm,
